@@ -65,7 +65,7 @@ example : (Reg.addSub s0 1 [1] 1 [1] 1 1).2 = true ∧
     (Reg.addSub s0 1 [1] 1 [1] 1 2).2 = false ∧ (Reg.addSub s0 1 [1] 4 [1] 1 1).2 = false ∧
     (Reg.addSub s0 1 [1] 3 [1] 2 2).2 = true := by decide
 
-/-- REFUTED on the code as written (model `RegObj`, known finding `registered-pair-granted-again`): "… and the same
+/-- REFUTED on the code as written (model `RegObj`, known finding `registered-pair-granted-again-after-reannouncement`): "… and the same
     pair is not subscribed already" — after the client sent data and its entity was announced again, the registered
     pair is granted a second time. -/
 theorem c08_granted_iff_refuted :
